@@ -32,6 +32,32 @@ CLAIMS = {
             "Lookup==first-enumerated then follows per impl; not decided: user Props impls, hash-map iteration order.",
             "custom MIR dataflow rules (visitor/ControlFlow discipline, override coherence table, forwarding)",
             "3/C02"),
+    "C05": ("Decides the typestate of SpanGuard{state,data,completion} on built MIR: Completion::complete is called "
+            "only in complete_default/complete_with, at most once, under the match (Started, Some, Some) of the three "
+            "*taken* fields (so a later Drop finds Completed/None/None); Drop and complete() route through it; start() "
+            "only moves Initial->Started(Timer::start(clock)) and writes any other state back; every SpanGuard "
+            "aggregate construction takes `completion` from the previous guard (monotone enablement; in new(): Some "
+            "only on the filter's accept edge) and takes state/data; Timer reads the clock once at start and once at "
+            "extent, range(start..now); the default completion's panic arm; level plumbing of the macro completion "
+            "hooks; argument agreement (no swapped same-typed arguments) incl. the proc-macro crate. Thorough adds "
+            "the macro call-site corpus. Not decided: values of clock readings (backwards clocks).",
+            "custom MIR typestate/dataflow rules (guarded-call, field provenance of aggregate constructions, "
+            "path-sensitive write-back) + argument-agreement lint",
+            "3/C05"),
+    "C03": ("Decides on built MIR (scope drops explicit on normal and unwind edges): Frame::enter / EnterGuard::drop "
+            "call Ctxt::enter / Ctxt::exit exactly once on the same (ctxt, scope); in Frame::call, Frame::with and "
+            "FrameFuture::poll the guard is held across the user call and dropped on the normal and on the unwind "
+            "successor (also per poll); Ctxt::enter/exit are called directly only by forwarding Ctxt impls, "
+            "Frame::enter and EnterGuard::drop; Frame::drop closes once, into_parts forgets; ThreadLocalCtxt::enter "
+            "and ::exit are the same swap(self.id, frame), swap is mem::swap with the thread-local map entry keyed by "
+            "the id parameter, current() clones that entry; the first id the counter hands out differs from the "
+            "shared id; storage is thread_local!; root frames do not read current state, pushed frames are a "
+            "copy-on-write snapshot overlaid with HashMap::insert, disabled = open_push(Empty); frames are Arc "
+            "snapshots without interior mutability; 30 forwarding/erased Ctxt methods forward once. Not decided: "
+            "that user code exits in stack order; cross-task schedules beyond the per-poll bracket.",
+            "custom MIR rules: guard liveness across calls incl. unwind edges, who-may-call, provenance of map keys, "
+            "constant evaluation of the id counter",
+            "3/C03"),
 }
 
 REASONS_NOT_YET = "check not built yet (build in progress; DESIGN.md section 3 lists the planned rules)"
